@@ -59,11 +59,11 @@ func capDialogue(wanted, adv []string, saslKind int, reply int, outcome string) 
 	case 1:
 		p.sasl, p.saslClient = plainSasl("", "user", "secret")
 	case 2:
-		p.sasl, p.saslClient = plainSasl("authz", "user", "pw\x00x")
+		p.sasl, p.saslClient = plainSasl("authz", "us?r", "pa?sw~rd>\x00\xff\xfe")
 	case 3:
 		p.sasl, p.saslClient = extSasl("")
 	case 4:
-		p.sasl, p.saslClient = extSasl("ident")
+		p.sasl, p.saslClient = extSasl("id>?~\xfb\xff")
 	}
 	univ := []string{"a", "b", "c", "d", "sasl", "t", "userhost-in-names"}
 	if len(adv) > 8 {
